@@ -658,7 +658,11 @@ func runShard(ck *Check, ph *Phase, bin, tierS string, s, n int, out string, per
 					}
 					var ch []int
 					if json.Unmarshal([]byte(line), &ch) == nil && len(ch) > 0 {
-						class, what := "worker-death", "worker process died (fatal error, fault or out-of-memory) while executing this case: "+firstLine(tail)
+						fl := firstLine(tail)
+						if fl == "" && err != nil {
+							fl = err.Error() // no output at all: killed from outside (e.g. "signal: killed" by the kernel's OOM killer)
+						}
+						class, what := "worker-death", "worker process died (fatal error, fault or out-of-memory) while executing this case: "+fl
 						if strings.Contains(string(outb), "WARNING: DATA RACE") {
 							class, what = "data-race", "the race detector reports a data race on this schedule: "+raceSummary(string(outb))
 							tail = raceReport(string(outb))
@@ -737,7 +741,7 @@ func finishCheck(ck *Check, tier universe.Tier, tierS, self string, results []*P
 				cbin = os.Getenv("VERIF_RACE_BIN")
 			}
 			conf := confirm(cbin, ck.ID, tierS, path, 5)
-			if conf == 0 && f.Class == "worker-death" && strings.Contains(f.Msg, "out of memory") {
+			if conf == 0 && f.Class == "worker-death" && (strings.Contains(f.Msg, "out of memory") || strings.Contains(f.Msg, "signal: killed")) {
 				// a worker ran out of its address-space limit on a case that needs no such memory when run alone:
 				// memory held by the harness itself (cached value alphabets), not a finding about the library -
 				// a cap on this run's coverage, not an error
